@@ -82,10 +82,16 @@ def run(ck, facts, tier):
         added_let = None
         guard_idx = None
         push_idx = None
+        # the flag is whatever local holds the outcome of the match on `answers_hash.entry(..)` (no name assumed)
+        added_name = None
         for i, st in enumerate(stmts):
-            if st.get("k") == "let" and st["pat"].get("n") == "added":
+            if st.get("k") == "let" and st.get("init") is not None and (st.get("pat") or {}).get("k") == "bind" and \
+                    peel(st["init"]).get("k") == "match" and has_call(peel(st["init"]).get("scrut"), "HashMap::entry"):
+                added_name = st["pat"].get("n")
+        for i, st in enumerate(stmts):
+            if st.get("k") == "let" and added_name is not None and st["pat"].get("n") == added_name:
                 added_let = (i, st)
-            if st.get("k") == "if" and peel(st["cond"]).get("k") == "un" and var_name(peel(st["cond"])["e"]) == "added" and \
+            if st.get("k") == "if" and peel(st["cond"]).get("k") == "un" and added_name is not None and var_name(peel(st["cond"])["e"]) == added_name and \
                     any(r.get("k") == "return" for r in walk(st["then"])):
                 guard_idx = i
             if any(True for _ in calls(st, "Vec::push")) and mentions_field(st, "answers"):
@@ -106,7 +112,9 @@ def run(ck, facts, tier):
                 kc = peel(karg)
                 if kc.get("k") == "call" and callee_matches(kc, "Clone::clone"):
                     kc = peel(kc["args"][0])
-                key_ok = kc.get("k") == "field" and kc["n"] == "subst" and kc.get("adt") == "chalk_engine::Answer" and var_name(kc["e"]) == "answer"
+                from kit import params_of_type as _pot
+                ans_params = _pot(pa, "chalk_engine::Answer") or {"answer"}
+                key_ok = kc.get("k") == "field" and kc["n"] == "subst" and kc.get("adt") == "chalk_engine::Answer" and var_name(kc["e"]) in ans_params
         if ok:
             ck.ok(R, "push_answer:push-only-if-vacant", "added = (Vacant => true | Occupied => false); if !added return None; push")
         else:
@@ -116,7 +124,7 @@ def run(ck, facts, tier):
         else:
             ck.violation(R, "push_answer:key=whole-answer-subst", pa.where(), "the duplicate check must be keyed by the whole canonical answer substitution")
         # index returned is the position pushed at
-        lens = [n for n in walk(pa.thir) if n.get("k") == "let" and n["pat"].get("n") == "index" and has_call(n["init"], "Vec::len")]
+        lens = [n for n in walk(pa.thir) if n.get("k") == "let" and n.get("init") is not None and has_call(n["init"], "Vec::len") and mentions_field(n["init"], "answers")]
         if lens:
             ck.ok(R, "push_answer:index=len-before-push")
         else:
